@@ -202,6 +202,10 @@ def run_case(case):
     if fmt == "fchk":
         data.run_type = [None, "energy", "energy_force", "opt", "scan", "freq"][case["i"] % 6]
         feats["run_type"] = data.run_type
+    # memory layout of the arrays is not part of the data: Fortran-ordered / strided / reversed views of equal arrays
+    if case["i"] % 3 == 2:
+        go.relayout(data, gb.rng_for(2, 77, case["seed"], case["i"]))
+        feats["layout"] = "non-contiguous"
     root = tempfile.mkdtemp(prefix="vf_c02_")
     viols = []
     counters = {"dumps": 0, "reloads": 0, "values_compared": 0, "refusals": 0}
